@@ -4,6 +4,7 @@ Observation is by wrapping, from Python and only for the duration of one call, t
 library resolves at call time (no hook in /repo):
 
   gaddlemaps._backend.Chi2Calculator / accept_metropolis / move_mol_atom / rotation_matrix
+  gaddlemaps._backend.check_backend_installed / _minimize_molecules / warnings   (the public wrapper's own steps)
   np.random.choice / normal / uniform / rand / randint      (recorders: call the real function,
                                                             append (kind, args, result) to the tape)
   np.mean                                                   (identity of the array whose centroid is taken)
@@ -174,7 +175,32 @@ class Recorder:
             ev.append(("minimize_ret", r))
             return r
 
+        real_check = B.check_backend_installed
+        real_engine = B._minimize_molecules
+
+        def check(*a, **k):
+            r = real_check(*a, **k)
+            ev.append(("backend_check", a, dict(k), bool(r)))
+            return r
+
+        def engine(*a, **k):
+            ev.append(("engine_call", len(a), sorted(k)))
+            return real_engine(*a, **k)
+
+        class _Warnings:
+            """stands in for the `warnings` module inside gaddlemaps._backend: every `warnings.warn` of the module is
+            an event (and is not shown)"""
+
+            def __getattr__(self, name):
+                return getattr(warnings, name)
+
+            def warn(self, message, *a, **k):
+                ev.append(("warning", str(message)))
+
         self._patch(A, "minimize_molecules", minimize)
+        self._patch(B, "check_backend_installed", check)
+        self._patch(B, "_minimize_molecules", engine)
+        self._patch(B, "warnings", _Warnings())
         self._patch(B, "Chi2Calculator", Chi2Wrap)
         self._patch(B, "accept_metropolis", accept)
         self._patch(B, "move_mol_atom", move)
